@@ -123,6 +123,10 @@ type RunResult struct {
 	Sample     json.RawMessage   `json:"sample,omitempty"`
 	Inconcl    int               `json:"inconclusive,omitempty"`
 	Notes      map[string]string `json:"notes,omitempty"`
+	// AltScenario, when set by Exec, replaces the scenario in violation reports (e.g. with the
+	// executed schedule made explicit so that replay does not depend on the generator).
+	AltScenario json.RawMessage `json:"-"`
+	Poisoned    bool            `json:"poisoned,omitempty"` // parked goroutines left behind: the worker must be replaced
 }
 
 func (r *RunResult) Fault(kind string) {
@@ -185,6 +189,9 @@ type Check struct {
 	QuickRuns, ThoroughRuns int
 	// Gen derives a scenario from a seed. Pure.
 	Gen func(seed uint64, tier string) any
+	// GenIdx, when set, is used instead of Gen and also receives the run's index in the batch
+	// (lets a check place a deterministic family, e.g. an exhaustive enumeration, in the first runs).
+	GenIdx func(idx int, seed uint64, tier string) any
 	// Exec executes a scenario. Deterministic. Must not panic for property violations.
 	Exec func(sc json.RawMessage, res *RunResult)
 	// Shrink proposes smaller scenarios (most aggressive first).
